@@ -103,6 +103,23 @@ def _attr_insn(item):
     return out
 
 
+def _attr_alias(item):
+    alias, behs, name = item
+    a = corpus_run.compile_insn(alias, behs)
+    b = corpus_run.compile_insn(name, behs)
+    key = f"alias:{alias}"
+    if a["status"] != "ok" or b["status"] != "ok":
+        if a["status"] == b["status"]:
+            return dict(key=key, verdict="ok", detail="both rejected")
+        return dict(key=key, verdict="bad", detail=f"{alias}: {a['status']} but {name}: {b['status']}")
+    if a["insn_name"] != name:
+        return dict(key=key, verdict="gap", detail=f"alias resolves to {a['insn_name']}")
+    if a["meta"] != b["meta"] or a["rzil"] != b["rzil"]:
+        return dict(key=key, verdict="bad", detail=f"{alias} resolves to {name} but reports {a['meta']} / {a['rzil'][0][:40]!r} where {name} "
+                                                   f"itself reports {b['meta']} / {b['rzil'][0][:40]!r}")
+    return dict(key=key, verdict="ok", detail="")
+
+
 def run(tier):
     rep = Report("C13", tier, "other")
     thorough = tier == "thorough"
@@ -158,6 +175,19 @@ def run(tier):
                 rep.add(r["key"], "violation", "attributes", r["detail"], c=r.get("c", ""))
             else:
                 rep.add(r["key"], "inconclusive", "reference-gap", r["detail"])
+    # the same instruction under each documented alias spelling of its name (dep_X, IMPORTED_X, undocumented_X, X_undocumented):
+    # the compiler resolves the alias to X, so the reported attributes (and for the no-op list: NOP + NONE) must be those of X
+    _, _, noped = corpus_run.res()
+    alias_names = sorted(set(noped) & set(B)) + [n for n in ("A2_add", "L2_loadri_io", "J2_jumpt", "S2_storerb_io", "C2_cmpeq") if n in B]
+    jobs = [(fmt_ % n, B[n], n) for n in alias_names for fmt_ in ("dep_%s", "IMPORTED_%s", "undocumented_%s", "%s_undocumented")]
+    for r in framework.pmap(_attr_alias, jobs, chunksize=2):
+        if r["verdict"] == "ok":
+            ncorp += 1
+            rep.add(r["key"], "ok")
+        elif r["verdict"] == "bad":
+            rep.add(r["key"], "violation", "attributes", r["detail"])
+        else:
+            rep.add(r["key"], "inconclusive", "rejected", r["detail"])
     corpus.quiet_imports()
     from rzilcompiler.Compiler import RZILInstruction
     u = RZILInstruction.get_unimplemented_rzil_instr("X_test")
